@@ -311,6 +311,38 @@ def r_expr(ctx):
                           first_line(ctx.project, "ConstraintFromExpression"))
 
 
+ASSERTION_WRITERS = ("append_z3_assertion", "append_z3_list_of_assertions", "set_z3_assertions", "set_assertions")
+
+
+def r_own_assertions(ctx):
+    """what a constraint asserts lives in its own assertion list (or in that of an element it creates itself): that list is
+    what the `applied` guard of an optional constraint wraps, what a logical combination reads as the operand's meaning, and
+    what the solver tracks under the constraint's name in debug mode.  An assertion written into the list of another element
+    (a task, a resource) escapes all three."""
+    n = 0
+    found = {}
+    for base in ("Constraint", "Indicator", "Objective"):
+        for c in ctx.project.subclasses(base):
+            for run in runs_of(ctx, Entry("init", cls=c.name, opaque=OPAQUE)):
+                n += 1
+                for e in run.emissions:
+                    if e.owner != SELF and not (isinstance(e.owner, tuple) and e.owner and e.owner[0] == "obj"):
+                        found.setdefault((f"{c.name}.__init__", show(norm(e.owner))[:60]), (show(norm(e.term))[:160], loc(e)))
+                for ev in run.events_of("mcall"):
+                    if ev.data["name"] in ASSERTION_WRITERS and ev.data["recv"] != SELF \
+                            and not (isinstance(ev.data["recv"], tuple) and ev.data["recv"] and ev.data["recv"][0] == "obj"):
+                        found.setdefault((f"{c.name}.__init__", show(norm(ev.data["recv"]))[:60]),
+                                         (show(norm(ev.data["args"][0]))[:160] if ev.data["args"] else "", f"processscheduler/{ev.site.module}.py:{ev.site.lineno}"))
+    for (where, recv), (what, location) in sorted(found.items()):
+        ctx.violation("R-OWN-ASSERTIONS", where, "assertion written into another element's list",
+                      f"{where.split('.')[0]} adds {what} to the assertions of `{recv}`: it is enforced whether or not the constraint is "
+                      f"applied, it is not part of the constraint's meaning inside a logical combination, and in debug mode it is not "
+                      f"attributed to the constraint", location)
+    ctx.floor("R-OWN-ASSERTIONS", "constructor paths scanned", n, 150)
+    if not found:
+        ctx.ok("R-OWN-ASSERTIONS", f"every constraint / indicator / objective asserts into its own list only ({n} paths)")
+
+
 def r_force_apply(ctx):
     cname = "ForceApplyNOptionalConstraints"
     runs = runs_of(ctx, Entry("init", cls=cname, opaque=OPAQUE))
@@ -369,4 +401,4 @@ def _base_store(ctx):
     _t.r_base_store(ctx)
 
 
-RULES = [r_fol_table, r_single_route, r_expr, r_force_apply, r_drain_constraints, _base_store]
+RULES = [r_fol_table, r_single_route, r_expr, r_force_apply, r_drain_constraints, _base_store, r_own_assertions]
